@@ -89,6 +89,37 @@ def eigen_vanishes(case, obs, i):
     return bool(simple and av[i] <= 1e-7 * av.max())
 
 
+def smoothing_vanishes(obs, L_ref, var0, fixed, free, i):
+    """the last smoothing system the code solved is (own operator on the free set) minus a real non-negative diagonal (alpha*AI),
+    its right-hand side is -L_IB z_B minus that diagonal times unit (or zero) numbers, and the oracle's own solve of it is
+    numerically zero at element i"""
+    sl = obs.get("smooth_last")
+    if sl is None or L_ref is None or sorted(obs["free"]) != free or len(sl["x"]) != len(free):
+        return False
+    nf = len(free)
+    A = dense(sl["A"], nf)
+    b = np.array([complex(x, y) for x, y in sl["b"]])
+    LII = L_ref[np.ix_(free, free)]
+    D = A - LII
+    scale = max(1.0, float(np.abs(LII).max()))
+    off = D - np.diag(np.diag(D))
+    dg = np.diag(D)
+    if np.abs(off).max() > 1e-8 * scale or np.abs(dg.imag).max() > 1e-8 * scale or dg.real.max() > 1e-12:
+        return False
+    valB = L_ref[np.ix_(free, fixed)] @ np.array(var0)[fixed] if fixed else np.zeros(nf, dtype=complex)
+    rest = b + valB                         # should be  -(alpha*AI) u  =  dg * u  with |u| in {0, 1}
+    for k in range(nf):
+        if abs(dg[k]) > 1e-14:
+            m = abs(rest[k] / dg[k])
+            if min(abs(m - 1), m) > 1e-6:
+                return False
+    sv = np.linalg.svd(A, compute_uv=False)
+    if sv[-1] <= 1e-12 * sv[0]:
+        return False
+    x = np.linalg.solve(A, b)
+    return bool(abs(x[free.index(i)]) <= 1e-8 * max(1.0, float(np.abs(x).max())))
+
+
 def plain_border_vertex(case, obs, v):
     """v lies on the border and its feature edges are exactly its two border edges (no crease ends there)"""
     he = set()
@@ -180,6 +211,12 @@ def check(case, obs, notes=None):
         elif (not has_feat) and obs["n_boundary_edges"] == 0 and case["n_smooth"] == 0 and eigen_vanishes(case, obs, i):
             fails.append(("unit/zero-eigenvector", "element %d has modulus %.3g: closed surface without features, and the eigenvector of the "
                                                    "smallest (simple) eigenvalue of the observed operator vanishes at this element" % (i, mod_i)))
+        elif (has_feat and case["n_smooth"] > 0 and i not in fixedset and i in solved and solved[i] > 1e-8 * zmax
+              and smoothing_vanishes(obs, L_ref, var0, fixed, free, i)):
+            fails.append(("unit/zero-smoothing-solution",
+                          "free element %d has modulus %.3g after %d smoothing step(s): the first solve is %.3g there, but the smoothing "
+                          "system lapI - alpha*AI (re-solved by the oracle from the rebuilt operator) vanishes there, and normalize "
+                          "leaves it" % (i, mod_i, case["n_smooth"], solved[i])))
         elif has_feat and i not in fixedset and i in solved and solved[i] <= 1e-8 * zmax:
             fails.append(("unit/zero-solution", "free element %d has modulus %.3g: the harmonic extension of the constraints vanishes "
                                                 "there (|z| = %.3g in the oracle's own solve), nothing to normalise" % (i, mod_i, solved[i])))
